@@ -57,7 +57,10 @@ class P(flow.Plan):
         traces, inputs = [], []
         for i in range(n):
             rng = random.Random(sd * 65537 + i)
-            kinds = [rng.choice(["path", "binary", "text", "custom", "ufile_b", "ufile_t"]) for _ in range(rng.randint(2, 5))]
+            kinds = [rng.choice(["path", "binary", "text", "custom", "ufile_b", "ufile_t", "console_b", "console_t", "console_e"])
+                     for _ in range(rng.randint(2, 5))]
+            if i % 4 == 1:
+                kinds[rng.randrange(len(kinds))] = "log"          # at most one: every LogWriter shares the module logger
             eol = rng.choice(["\n", "\r\n", "\r\n", "\r"])
             raw = rng.random() < 0.5
             descs = []
@@ -112,7 +115,23 @@ class P(flow.Plan):
             fn(t["ev"][step - 1], t)
             t["meta"]["control"] = {"clause": clause, "step": step}
             return t
-        return [
+        # the bundled console / log writers and a file the user opened: a record whose text kept its trailing blank, a console
+        # that lags, a user file short after teardown
+        b2 = writers_rec.run_descs([{"act": "add", "w": 1}, {"act": "add", "w": 2}, {"act": "add", "w": 3},
+                                    {"act": "write", "text": "G0 Z5 "}, {"act": "write", "text": "  "}, {"act": "teardown"}],
+                                   ["log", "console_b", "ufile_b"], "\n", {"driver": "control-base"})
+
+        def mut2(clause, step, fn):
+            t = copy.deepcopy(b2)
+            fn(t["ev"][step - 1], t)
+            t["meta"]["control"] = {"clause": clause, "step": step}
+            return t
+        extra = [
+            mut2("C14_Delivery", 4, lambda e, t: e["obs"].__setitem__(0, e["obs"][0][:-1] + [32, 10])),
+            mut2("C14_Delivery", 5, lambda e, t: e["obs"].__setitem__(1, e["obs"][1][:-1])),
+            mut2("C14_Flush", 6, lambda e, t: e["obs"].__setitem__(2, e["obs"][2][:-1])),
+        ]
+        return extra + [
             mut("C14_Delivery", 5, lambda e, t: e["obs"][2].pop()),                       # custom writer misses a byte
             mut("C14_Delivery", 5, lambda e, t: e["obs"].__setitem__(1, e["obs"][1] + e["obs"][1][-6:])),  # delivered twice
             mut("C14_Others", 7, lambda e, t: e["obs"].__setitem__(1, e["obs"][1] + [71, 10])),   # removed writer still written
